@@ -162,10 +162,14 @@ STAKING_REACH_PUNISH = ["TooAbsent", "JailedForAbsence", "SwitchedOffInGrace", "
                         "EvidenceWithUnbondingFunds", "EvidenceWithFundsDueNow", "EvidenceAgainstOffline", "EvidenceAndAbsenceTogether", "Payout", "ValidatorLeaves"]
 STAKING_REACH_VOTES = ["VoteOk", "VoteExpired", "VoteTwice", "VoteByStranger", "Halted", "HaltVotesNotEnough", "HaltExactlyTwoThirds", "UpdateApplied",
                        "UpdateVotesNotEnough", "UpdateCompeting", "VotesForgotten"]
+STAKING_REACH_CANDS = ["DeclareOk", "DeclareExisting", "DeclareWrongCommission", "EditCandidateOk", "EditByNewOwner", "EditByStranger", "CommissionOk", "CommissionTooFar",
+                       "CommissionTooSoon", "CommissionByControl", "NewCandidateIsValidator"]
 MC["staking"] = {"quick": [("MCStaking", "mc/MCStaking_exits.cfg", {"reach": STAKING_REACH_EXITS}), ("MCStaking", "mc/MCStaking_punish.cfg", {"reach": STAKING_REACH_PUNISH}),
-                           ("MCStaking", "mc/MCStaking_votes.cfg", {"reach": STAKING_REACH_VOTES})],
+                           ("MCStaking", "mc/MCStaking_votes.cfg", {"reach": STAKING_REACH_VOTES}),
+                           ("MCStaking", "mc/MCStaking_cands.cfg", {"reach": STAKING_REACH_CANDS})],
                  "thorough": [("MCStaking", "mc/MCStaking_exits_t.cfg", {"reach": STAKING_REACH_EXITS}), ("MCStaking", "mc/MCStaking_punish_t.cfg", {"reach": STAKING_REACH_PUNISH}),
-                              ("MCStaking", "mc/MCStaking_votes.cfg", {"reach": STAKING_REACH_VOTES})]}
+                              ("MCStaking", "mc/MCStaking_votes.cfg", {"reach": STAKING_REACH_VOTES}),
+                              ("MCStaking", "mc/MCStaking_cands.cfg", {"reach": STAKING_REACH_CANDS})]}
 def markets(tier, seed):
     rnd = random.Random("%d/markets" % seed)
     pool_model = gens_markets.from_pool_model(vlib.tlc_generate_raw("MCPools", "gen/MCPoolsGen.cfg", big=True))
